@@ -101,8 +101,8 @@ func loadWorld(repo, verif string) (*World, error) {
 		if fn.Synthetic != "" && !strings.HasPrefix(fn.Synthetic, "instance of") {
 			continue
 		}
-		if fn.Parent() != nil {
-			continue // closures
+		if fn.Parent() != nil && len(fn.FreeVars) != 0 {
+			continue // closures that capture variables are outside the subset
 		}
 		if fn.TypeParams().Len() > 0 && len(fn.TypeArgs()) == 0 {
 			continue // uninstantiated generic
